@@ -114,7 +114,24 @@ func newGetRangeResult(
 
 // Verify verifies inclusion the data in the data root
 func (r *GetRangeResult) Verify(dataRoot []byte) error {
+	if r.Proof == nil {
+		return errors.New("share proof is missing")
+	}
+	for _, shareProof := range r.Proof.ShareProofs {
+		if shareProof == nil {
+			return errors.New("share proof contains an empty nmt proof")
+		}
+	}
+	for _, rowProof := range r.Proof.RowProof.Proofs {
+		if rowProof == nil {
+			return errors.New("share proof contains an empty row proof")
+		}
+	}
+
 	rawShares := libshare.ToBytes(r.Shares)
+	if len(rawShares) != len(r.Proof.Data) {
+		return errors.New("share data mismatch")
+	}
 	for i, shares := range rawShares {
 		if !bytes.Equal(shares, r.Proof.Data[i]) {
 			return errors.New("share data mismatch")
